@@ -857,3 +857,20 @@ example : LND.ChooseGeomDom LND.exEnv ∧ LND.AskDom LND.exEnv LND.exOps ∧
   refine ⟨hC, hN, s, h, LND.lnd_ghost_true_dom LND.exEnv LND.exEnv_triGeom LND.exEnv_subGeom hC LND.exOps hN h, ?_⟩
   have := LND.lnd_queue_complete_dom LND.exEnv LND.exEnv_triGeom LND.exEnv_subGeom hC LND.exOps hN h _ ht
   exact (this [0, 1, 2] (by decide)).2 [0, 1, 2, 4] (by rw [hsub]; rfl)
+
+/-! ## appended: the state-level hypotheses of `lnd_*_dim2` are invariants of the reachable states
+
+`SubVertsInOwner env` (field `subVerts` of `Dim2Hyps`) and `AskDom env ops` (`ChosenInDomainAt`) are hypotheses about the
+STATES a run goes through.  `Props/C04Reach.lean` (helpers `Lemmas/LNDAccept.lean`, `Lemmas/LNDReach.lean`; it imports
+this file, so the theorems live there) proves them as invariants of the model's reachable states and restates the three
+headline theorems without them:
+
+* `LND.lnd_subs_accepted` — `SubsAccepted`: every stored sub-triangulation's vertex list is the owner's corners followed by
+  points `point_in_simplex` accepted for the owner (every history);
+* `LND.lnd_verts_in_domain` — `VertsInDomain`: evaluated / pending points and all (sub)triangulation vertices lie in the
+  domain (histories whose told points lie in the domain; `tell_pending` of arbitrary points allowed);
+* `LND.lnd_subVertsInOwner_reach`, `LND.lnd_askDom_of_inDomain` — (A) state-relative and (B) derived;
+* `LND.lnd_chosen_subdivided_reach`, `LND.lnd_ghost_true_reach`, `LND.lnd_queue_complete_reach` — hypotheses: `Dim2HypsR`
+  (= `Dim2Hyps` without `subVerts`, plus the index range of sub-simplices), `TriGeom`, `SubGeom`, `InDomain env ops`,
+  `AskNew env ops`.  The theorems `lnd_*_dim2` above are kept.  Non-vacuity on a real run of a coordinate-computed
+  environment: `Examples/C04Reach.lean` (`Wit2.gRun_reach`); `LND.lnd_verts_in_domain_needs_inDomain`: `InDomain` is needed. -/
